@@ -695,6 +695,8 @@ Pointset_Powerset<PSET>::topological_closure_assign() {
          s_end = x.sequence.end(); si != s_end; ++si) {
     si->pointset().topological_closure_assign();
   }
+  // Disjuncts that were not comparable may have become so.
+  x.reduced = false;
   PPL_ASSERT_HEAVY(x.OK());
 }
 
